@@ -20,11 +20,18 @@ LEAN_SETTING_NOTE = (
 )
 
 
+def _specs_head(tier):
+    from .format_props import specs_head
+    return specs_head(tier)
+
+
 def specs_hermitian(tier):
     return (specs_evals(tier, algs=("main",)) + specs_wiring(tier, algs=("main",)) + specs_product(tier) + specs_index(tier)
             + specs_solver(tier) + specs_masks(tier)
             # the closures that block_diagonalize hands to the algorithm (masks, solvers, converters) keep no state between calls: the units above speak about ONE call each
-            + [("contracts.frame", "unit_frame", {})])
+            + [("contracts.frame", "unit_frame", {})]
+            # head and tail of block_diagonalize: what reaches the algorithm and what is returned, in which order
+            + _specs_head(tier))
 
 
 # vacuity guard: the class axioms and the generated equation structures are jointly satisfiable (degenerate witness A = Q)
